@@ -200,6 +200,9 @@ def bingham_spectra(D):
         'gap1e-3': -1e-3 * np.arange(D, dtype=float),
         'clustered': np.array([0.0] + [-(5.0 + 1e-3 * i) for i in range(D - 1)]),
         'shifted': 2.5 - 1.7 * np.arange(D, dtype=float),
+        # ML fit of a scatter matrix with a vanishing eigenvalue: one huge concentration next to moderate ones
+        'huge_tail': np.array([0.0] + [-6.7 * i for i in range(1, D - 1)] + [-3.68e19]),
+        'huge_tail2': np.array([0.0] + [-7.04 - i for i in range(D - 2)] + [-8.3e16]),
     }
     return out
 
@@ -239,7 +242,9 @@ def run_bingham(key):
     want = np.zeros(stack + (4,))
     for idx in np.ndindex(*stack):
         want[idx] = R.bingham_logpdf(ys[idx], Us[idx], lams[idx])
-    bad = tol.mismatch(got, want, tol.TIGHT, scale=10 * max(amp, 1.0), what='bingham.log_pdf')
+    # y^H U diag(l) U^H y is evaluated to eps * max|l| at best when U is not a permutation
+    cond = 0.0 if uk == 'identity' else 1e-6 * float(np.abs(lam0).max())
+    bad = tol.mismatch(got, want, tol.TIGHT, scale=10 * max(amp, 1.0) + cond, what='bingham.log_pdf')
     if bad:
         return viol(bad, got, want)
     return ok(outcome=tol.digest(want))
